@@ -77,12 +77,14 @@ def check(ctx):
                 if dv_ is not None and norm(dv_) == 'self.link' and not inside:
                     stale.append('%s = self.link at line %d' % (c_.func.value.id, d_.line))
         ctx.inst('R2', sp, 'link-read-under-the-send-lock', bool(loc) and not stale, 'the link that transmits is read from self.link after the send lock was taken; read before: %s' % stale)
-        ctx.need(not stale and len(sends) >= 1, 'send_packet: no self.link.send_packet(...)')
+        ctx.need(not stale and len(loc) >= 1 and len({c_.func.value.id for _, c_ in loc}) == 1, 'send_packet: no transmission through self.link or one local read from it')
+        sends = loc
+    LR = norm(sends[0][1].func.value)        # the link as send_packet names it: self.link, or the local it was read into under the lock
 
     # ---- R1: timers ------------------------------------------------------------
     timers = g.find(lambda n: isinstance(n, ast.Call) and dotted(n.func) in ('Timer', 'threading.Timer'))
     ctx.need(len(timers) >= 2, 'send_packet: expected two Timer(...) sites (first send, retry), found %d' % len(timers))
-    link_open = fact_key('self.link is not None', True)
+    link_open = fact_key('%s is not None' % LR, True)
     n_first = n_retry = 0
     for n, c in timers:
         keys = g.fact_keys_at(n)
@@ -94,7 +96,7 @@ def check(ctx):
             ctx.inst('R1', sp, 'retry-timer-guard', ok, 're-arming requires an open link and a still pending pattern; guards %s' % sorted(keys))
         else:
             n_first += 1
-            want = [link_open, fact_key('len(expected_reply) > 0', True), fact_key('resend', False), fact_key('self.link.needs_resending', True)]
+            want = [link_open, fact_key('len(expected_reply) > 0', True), fact_key('resend', False), fact_key('%s.needs_resending' % LR, True)]
             ok = all(w in keys for w in want)
             ctx.inst('R1', sp, 'first-timer-guard', ok,
                      'arming requires open link, non-empty expectation, not a resend, driver needs resending; guards %s' % sorted(keys))
@@ -166,15 +168,15 @@ def check(ctx):
     regs, gl = regions(sp, 'self._send_lock')
     ctx.need(len(regs) == 1, 'send_packet: expected one _send_lock region, found %d' % len(regs))
     held = {n.id for n in regs[0].held}
-    for n, c in gl.find(lambda q: method_call(q, 'send_packet') and norm(q.func.value) == 'self.link'):
+    for n, c in gl.find(lambda q: method_call(q, 'send_packet') and norm(q.func.value) == LR):
         ctx.inst('R5', sp, 'send-under-lock', n.id in held, 'transmission must happen while _send_lock is held')
-    for n, c in gl.find(lambda q: isinstance(q, ast.Compare) and norm(q) == 'self.link is not None'):
+    for n, c in gl.find(lambda q: isinstance(q, ast.Compare) and norm(q) == '%s is not None' % LR):
         ctx.inst('R5', sp, 'link-test-under-lock', n.id in held, 'the link-open test must be made under the lock')
     esc = regs[0].escape(include_raise=True)
     ctx.inst('R5', sp, 'lock-released', esc is None, 'send lock not released on %s' % (gl.fmt_path(esc) if esc else ''))
     klass = m.cls(CF, 'Crazyflie')
     other = [(f, c) for f in klass.methods.values() if f.name != 'send_packet' for c in walk_own(f.node)
-             if method_call(c, 'send_packet') and norm(c.func.value) == 'self.link']
+             if method_call(c, 'send_packet') and 'link' in norm(c.func.value).split('.')[-1:]]
     ctx.inst('R5', sp, 'single-transmit-site', not other, 'only send_packet may call the driver: also in %s' % [f.qualname for f, _ in other])
 
     # ---- R3: longest-prefix match -------------------------------------------------
@@ -446,7 +448,7 @@ VARIANTS = [
       extra=[('cflib/crtp/radiodriver.py', "                break\n        self._link.needs_resending = not self._has_safelink\n", "                break\n")]),
     M('R9', 'cflib/crtp/usbdriver.py', "                self.cfusb.close()\n        except Exception as e:", "                self.cfusb.close()\n                self.cfusb = None\n        except Exception as e:",
       'usb handle kept when the close fails', extra=[('cflib/crtp/usbdriver.py', "            pass\n        self.cfusb = None\n", "            pass\n")]),
-    M('R1', CF, "                if len(expected_reply) > 0 and not resend and \\\n                        self.link.needs_resending:", "                if len(expected_reply) > 0 and not resend:", 'arm without needs_resending'),
+    M('R1', CF, "                if len(expected_reply) > 0 and not resend and \\\n                        link.needs_resending:", "                if len(expected_reply) > 0 and not resend:", 'arm without needs_resending'),
     M('R1', CF, "                    self._answer_patterns[pattern] = new_timer\n                    new_timer.start()\n                elif resend:", "                    self._answer_patterns[pattern] = new_timer\n                elif resend:", 'first timer never started'),
     M('R1', CF, "        self.send_packet(pk, expected_reply=pattern, resend=True)", "        self.send_packet(pk, expected_reply=pattern)", 'retry without resend flag'),
     M('R2', CF, "                                     self._answer_patterns)\n                        return\n", "                                     self._answer_patterns)\n", 'F-10a reintroduced'),
@@ -455,7 +457,8 @@ VARIANTS = [
     M('R3', CF, "            self._answer_patterns[longest_match].cancel()\n            del self._answer_patterns[longest_match]", "            del self._answer_patterns[longest_match]", 'delete without cancel'),
     M('R4', CF, "        for timer in list(self._answer_patterns.values()):\n            timer.cancel()\n        self._answer_patterns = {}\n        self.disconnected.call(self.link_uri)", "        self._answer_patterns = {}\n        self.disconnected.call(self.link_uri)", 'F-10b reintroduced'),
     M('R4', CF, "        for timer in list(self._answer_patterns.values()):\n            timer.cancel()\n        self._answer_patterns = {}\n        if (self.state == State.INITIALIZED):", "        if (self.state == State.INITIALIZED):", 'F-10d reintroduced'),
-    M('R2', CF, "        self._send_lock.acquire()\n        try:\n            if self.link is not None:", "        self._send_lock.acquire()\n        try:\n            if True:", 'send on closed link'),
+    M('R2', CF, "            link = self.link\n            if link is not None:\n                if len(expected_reply) > 0", "            link = self.link\n            if True:\n                if len(expected_reply) > 0", 'send on closed link'),
+    M('R2', CF, "        self._send_lock.acquire()\n        try:\n            # Read the link once, a link error or close_link() on another\n            # thread sets it to None without taking the send lock\n            link = self.link\n", "        link = self.link\n        self._send_lock.acquire()\n        try:\n", 'link read before the send lock is taken'),
     M('R6', 'cflib/crtp/udpdriver.py', "        CRTPDriver.__init__(self)\n", "        None\n", 'F-10c reintroduced'),
     M('R7', 'cflib/crtp/usbdriver.py', "        self.needs_resending = False", "        self.needs_resending = True", 'usb resends'),
     M('R7', 'cflib/crtp/radiodriver.py', "self._link.needs_resending = not self._has_safelink", "self._link.needs_resending = self._has_safelink", 'radio inverted'),
